@@ -99,7 +99,7 @@ def check_dir(s, cfg, c32, c64, x, tag, direction, dom):
     extra = 1e-3 if s.kind == "umnn" else 0.0
     if "Cubic" in s.name or s.name == "splinefn_cubic":
         # declared approximation of the cubic inverse (quadratic_threshold=1e-3, eps=1e-5, both relative to the box), also visible in float32 root finding
-        extra = 2e-2 * max(1.0, 0.5 * width)
+        extra = 2e-2 * max(1.0, 0.5 * width, float(cfg.get("tb") or 0.0))
     by = c * (1 + float(np.max(np.abs(y64)))) + 4 * vy + extra
     bl = c * (1 + abs(float(l64[0]))) * max(1, D) ** 0.5 + 4 * vl + extra
     if dy.max() > by:
